@@ -361,4 +361,184 @@ example : (evaluate pEx peerOk []).1 = true := by decide +kernel
 example : (evaluate pEx peerBad []).1 = false ∧ ((evaluate pEx peerBad []).2.map (·.field)) = [s "Key exchanges"] := by decide +kernel
 example : (evaluate { pEx with allowSubset := false } peerOk []).2.map (·.field) = [s "Key exchanges", s "Ciphers"] := by decide +kernel
 
+theorem prefix_ne (A t B C : Str) (n : Nat) (hn : n ≤ A.length) (hne : A.take n ≠ C.take n) : A ++ t ++ B ≠ C := by
+  intro h
+  apply hne
+  have := congrArg (List.take n) h
+  rw [List.append_assoc, List.take_append_of_le_length hn] at this
+  exact this
+
+theorem allWF_append (p : Policy) (peer : Peer) (st : St) (e : PErr) (b : Bool) (h : AllWF p peer st) (he : WellFormedErr p peer e) :
+    AllWF p peer (b, st.2 ++ [e]) := by
+  intro x hx
+  simp only [List.mem_append, List.mem_singleton] at hx
+  rcases hx with hx | hx
+  · exact h x hx
+  · subst hx; exact he
+
+theorem stepIf_wf (p : Policy) (peer : Peer) (bad : Bool) (st : St) (f : Str) (req : List Str) (opt : Option (List Str)) (act : List Str)
+    (h : AllWF p peer st) (he : WellFormedErr p peer { field := f, expectedRequired := req, expectedOptional := opt.getD [[]], actual := act }) :
+    AllWF p peer (stepIf bad st f req opt act) := by
+  unfold stepIf
+  split
+  · exact allWF_append p peer st _ false h he
+  · exact h
+
+/-- errors of the size checks: their field is one of the three parametrised names (no list-field obligation applies) -/
+theorem wf_sized (p : Policy) (peer : Peer) (A t B : Str) (req act : List Str)
+    (hk : knownField (A ++ t ++ B))
+    (h1 : A ++ t ++ B ≠ s "Host keys") (h2 : A ++ t ++ B ≠ s "Key exchanges") (h3 : A ++ t ++ B ≠ s "Ciphers") (h4 : A ++ t ++ B ≠ s "MACs")
+    (h5 : A ++ t ++ B ≠ s "Compression") (h6 : A ++ t ++ B ≠ s "Banner") :
+    WellFormedErr p peer { field := A ++ t ++ B, expectedRequired := req, expectedOptional := [[]], actual := act } :=
+  ⟨hk, fun h => absurd h h1, fun h => absurd h h2, fun h => absurd h h3, fun h => absurd h h4, fun h => absurd h h5, fun h => absurd h h6⟩
+
+theorem wf_hostKeySize (p : Policy) (peer : Peer) (t : Str) (req act : List Str) :
+    WellFormedErr p peer { field := s "Host key (" ++ t ++ s ") sizes", expectedRequired := req, expectedOptional := [[]], actual := act } :=
+  wf_sized p peer _ t _ req act (Or.inr (Or.inr (Or.inr (Or.inr (Or.inr (Or.inr (Or.inr (Or.inl ⟨t, rfl⟩))))))))
+    (prefix_ne _ _ _ _ 9 (by decide +kernel) (by decide +kernel)) (prefix_ne _ _ _ _ 2 (by decide +kernel) (by decide +kernel))
+    (prefix_ne _ _ _ _ 2 (by decide +kernel) (by decide +kernel)) (prefix_ne _ _ _ _ 2 (by decide +kernel) (by decide +kernel))
+    (prefix_ne _ _ _ _ 2 (by decide +kernel) (by decide +kernel)) (prefix_ne _ _ _ _ 2 (by decide +kernel) (by decide +kernel))
+
+theorem wf_caSize (p : Policy) (peer : Peer) (t : Str) (req act : List Str) :
+    WellFormedErr p peer { field := s "CA signature size (" ++ t ++ s ")", expectedRequired := req, expectedOptional := [[]], actual := act } :=
+  wf_sized p peer _ t _ req act (Or.inr (Or.inr (Or.inr (Or.inr (Or.inr (Or.inr (Or.inr (Or.inr (Or.inl ⟨t, rfl⟩)))))))))
+    (prefix_ne _ _ _ _ 2 (by decide +kernel) (by decide +kernel)) (prefix_ne _ _ _ _ 2 (by decide +kernel) (by decide +kernel))
+    (prefix_ne _ _ _ _ 2 (by decide +kernel) (by decide +kernel)) (prefix_ne _ _ _ _ 2 (by decide +kernel) (by decide +kernel))
+    (prefix_ne _ _ _ _ 2 (by decide +kernel) (by decide +kernel)) (prefix_ne _ _ _ _ 2 (by decide +kernel) (by decide +kernel))
+
+theorem wf_dhSize (p : Policy) (peer : Peer) (t : Str) (req act : List Str) :
+    WellFormedErr p peer { field := s "Group exchange (" ++ t ++ s ") modulus sizes", expectedRequired := req, expectedOptional := [[]], actual := act } :=
+  wf_sized p peer _ t _ req act (Or.inr (Or.inr (Or.inr (Or.inr (Or.inr (Or.inr (Or.inr (Or.inr (Or.inr ⟨t, rfl⟩)))))))))
+    (prefix_ne _ _ _ _ 2 (by decide +kernel) (by decide +kernel)) (prefix_ne _ _ _ _ 2 (by decide +kernel) (by decide +kernel))
+    (prefix_ne _ _ _ _ 2 (by decide +kernel) (by decide +kernel)) (prefix_ne _ _ _ _ 2 (by decide +kernel) (by decide +kernel))
+    (prefix_ne _ _ _ _ 2 (by decide +kernel) (by decide +kernel)) (prefix_ne _ _ _ _ 2 (by decide +kernel) (by decide +kernel))
+
+theorem wf_caType (p : Policy) (peer : Peer) (req act : List Str) :
+    WellFormedErr p peer { field := s "CA signature type", expectedRequired := req, expectedOptional := [[]], actual := act } :=
+  ⟨Or.inr (Or.inr (Or.inr (Or.inr (Or.inr (Or.inr (Or.inl rfl)))))),
+   fun h => by simp only at h; exact absurd h (by decide +kernel), fun h => by simp only at h; exact absurd h (by decide +kernel), fun h => by simp only at h; exact absurd h (by decide +kernel),
+   fun h => by simp only at h; exact absurd h (by decide +kernel), fun h => by simp only at h; exact absurd h (by decide +kernel), fun h => by simp only at h; exact absurd h (by decide +kernel)⟩
+
+theorem hostKeySizeStep_wf (p : Policy) (peer : Peer) (sizes : List (Str × HKS)) (st : St) (t : Str) (h : AllWF p peer st) :
+    AllWF p peer (hostKeySizeStep p peer sizes st t) := by
+  unfold hostKeySizeStep
+  split
+  · next exp act _ _ =>
+    have h1 : AllWF p peer (stepIf (sizeBad p.allowLarger act.size exp.size) st (s "Host key (" ++ t ++ s ") sizes") [Text.natToStr exp.size] none [Text.natToStr act.size]) :=
+      stepIf_wf p peer _ st _ _ none _ h (wf_hostKeySize p peer t _ _)
+    simp only
+    split
+    · split
+      · exact allWF_append p peer _ _ false h1 (wf_caType p peer _ _)
+      · exact stepIf_wf p peer _ _ _ _ none _ h1 (wf_caSize p peer _ _ _)
+    · exact h1
+  · exact h
+
+theorem dhSizeStep_wf (p : Policy) (peer : Peer) (sizes : List (Str × Nat)) (st : St) (t : Str) (h : AllWF p peer st) :
+    AllWF p peer (dhSizeStep p peer sizes st t) := by
+  unfold dhSizeStep
+  split
+  · exact stepIf_wf p peer _ st _ _ none _ h (wf_dhSize p peer t _ _)
+  · exact h
+
+theorem foldl_wf {α : Type} (p : Policy) (peer : Peer) (f : St → α → St) (hf : ∀ st a, AllWF p peer st → AllWF p peer (f st a)) (l : List α) (st : St)
+    (h : AllWF p peer st) : AllWF p peer (l.foldl f st) := by
+  induction l generalizing st with
+  | nil => exact h
+  | cons a l ih => exact ih _ (hf st a h)
+
+/-- **Every error names a documented field, and the list-field errors carry the policy's list as expected and the peer's
+    list as actual** — for every policy and peer (any pre-existing entries being well-formed). -/
+theorem errors_wellformed (p : Policy) (peer : Peer) : AllWF p peer (evaluate p peer []) := by
+  have h0 : AllWF p peer ((true, []) : St) := fun e he => by cases he
+  have hb : AllWF p peer (stBanner p peer (true, [])) := by
+    unfold stBanner
+    split
+    · next b hbn =>
+      refine stepIf_wf p peer _ _ _ _ none _ h0 ⟨Or.inl rfl, ?_, ?_, ?_, ?_, ?_, ?_⟩
+      · exact fun h => by simp only at h; exact absurd h (by decide +kernel)
+      · exact fun h => by simp only at h; exact absurd h (by decide +kernel)
+      · exact fun h => by simp only at h; exact absurd h (by decide +kernel)
+      · exact fun h => by simp only at h; exact absurd h (by decide +kernel)
+      · exact fun h => by simp only at h; exact absurd h (by decide +kernel)
+      · exact fun _ => ⟨by simpa using hbn, rfl⟩
+    · exact h0
+  unfold evaluate
+  simp only
+  split
+  · exact hb
+  · have hc : AllWF p peer (stComp p peer (stBanner p peer (true, []))) := by
+      unfold stComp
+      split
+      · next c hcn =>
+        refine stepIf_wf p peer _ _ _ _ none _ hb ⟨Or.inr (Or.inl rfl), ?_, ?_, ?_, ?_, ?_, ?_⟩
+        · exact fun h => by simp only at h; exact absurd h (by decide +kernel)
+        · exact fun h => by simp only at h; exact absurd h (by decide +kernel)
+        · exact fun h => by simp only at h; exact absurd h (by decide +kernel)
+        · exact fun h => by simp only at h; exact absurd h (by decide +kernel)
+        · exact fun _ => ⟨hcn, rfl⟩
+        · exact fun h => by simp only at h; exact absurd h (by decide +kernel)
+      · exact hb
+    have hk : AllWF p peer (stHostKeys p peer (stComp p peer (stBanner p peer (true, [])))) := by
+      unfold stHostKeys
+      split
+      · next hk hkn =>
+        refine stepIf_wf p peer _ _ _ _ _ _ hc ⟨Or.inr (Or.inr (Or.inl rfl)), ?_, ?_, ?_, ?_, ?_, ?_⟩
+        · exact fun _ => ⟨hkn, rfl, rfl⟩
+        · exact fun h => by simp only at h; exact absurd h (by decide +kernel)
+        · exact fun h => by simp only at h; exact absurd h (by decide +kernel)
+        · exact fun h => by simp only at h; exact absurd h (by decide +kernel)
+        · exact fun h => by simp only at h; exact absurd h (by decide +kernel)
+        · exact fun h => by simp only at h; exact absurd h (by decide +kernel)
+      · exact hc
+    have hs : AllWF p peer (stHostKeySizes p peer (stHostKeys p peer (stComp p peer (stBanner p peer (true, []))))) := by
+      unfold stHostKeySizes
+      split
+      · exact foldl_wf p peer _ (fun st a h => hostKeySizeStep_wf p peer _ st a h) _ _ hk
+      · exact hk
+    have hx : AllWF p peer (stKex p peer (stHostKeySizes p peer (stHostKeys p peer (stComp p peer (stBanner p peer (true, [])))))) := by
+      unfold stKex
+      split
+      · next k hkn =>
+        have wfk : WellFormedErr p peer { field := s "Key exchanges", expectedRequired := k, expectedOptional := (none : Option (List Str)).getD [[]], actual := peer.kex } := by
+          refine ⟨Or.inr (Or.inr (Or.inr (Or.inl rfl))), ?_, ?_, ?_, ?_, ?_, ?_⟩
+          · exact fun h => by simp only at h; exact absurd h (by decide +kernel)
+          · exact fun _ => ⟨hkn, rfl⟩
+          · exact fun h => by simp only at h; exact absurd h (by decide +kernel)
+          · exact fun h => by simp only at h; exact absurd h (by decide +kernel)
+          · exact fun h => by simp only at h; exact absurd h (by decide +kernel)
+          · exact fun h => by simp only at h; exact absurd h (by decide +kernel)
+        exact stepIf_wf p peer _ _ _ _ none _ (stepIf_wf p peer _ _ _ _ none _ hs wfk) wfk
+      · exact hs
+    have hci : AllWF p peer (stCiphers p peer (stKex p peer (stHostKeySizes p peer (stHostKeys p peer (stComp p peer (stBanner p peer (true, []))))))) := by
+      unfold stCiphers
+      split
+      · next c hcn =>
+        refine stepIf_wf p peer _ _ _ _ none _ hx ⟨Or.inr (Or.inr (Or.inr (Or.inr (Or.inl rfl)))), ?_, ?_, ?_, ?_, ?_, ?_⟩
+        · exact fun h => by simp only at h; exact absurd h (by decide +kernel)
+        · exact fun h => by simp only at h; exact absurd h (by decide +kernel)
+        · exact fun _ => ⟨hcn, rfl⟩
+        · exact fun h => by simp only at h; exact absurd h (by decide +kernel)
+        · exact fun h => by simp only at h; exact absurd h (by decide +kernel)
+        · exact fun h => by simp only at h; exact absurd h (by decide +kernel)
+      · exact hx
+    have hm : AllWF p peer (stMacs p peer (stCiphers p peer (stKex p peer (stHostKeySizes p peer (stHostKeys p peer (stComp p peer (stBanner p peer (true, [])))))))) := by
+      unfold stMacs
+      split
+      · next m hmn =>
+        refine stepIf_wf p peer _ _ _ _ none _ hci ⟨Or.inr (Or.inr (Or.inr (Or.inr (Or.inr (Or.inl rfl))))), ?_, ?_, ?_, ?_, ?_, ?_⟩
+        · exact fun h => by simp only at h; exact absurd h (by decide +kernel)
+        · exact fun h => by simp only at h; exact absurd h (by decide +kernel)
+        · exact fun h => by simp only at h; exact absurd h (by decide +kernel)
+        · exact fun _ => ⟨hmn, rfl⟩
+        · exact fun h => by simp only at h; exact absurd h (by decide +kernel)
+        · exact fun h => by simp only at h; exact absurd h (by decide +kernel)
+      · exact hci
+    unfold stDh
+    split
+    · exact foldl_wf p peer _ (fun st a h => dhSizeStep_wf p peer _ st a h) _ _ hm
+    · exact hm
+
+example : ((evaluate { pEx with allowSubset := false } peerOk []).2.map (·.expectedRequired)) = [[s "a", strictS], [s "c1", s "c2"]] := by decide +kernel
+
 end SshAudit.C06
